@@ -1275,10 +1275,22 @@ func (w *c03World) deletePod(p *c03Pod, why string) {
 // ---------------------------------------------------------------------------------------------
 // the scheduling attempt and its oracle
 
-// c03LiteralUnrequestedDims: an admission while usage is already above a limit in a declared
-// dimension of which the pod requests nothing is a violation of the statement read literally. Set to
-// false to only count these (counter admitted_already_over_zero_request_*).
-const c03LiteralUnrequestedDims = false
+// c03LiteralUnrequestedDims: is an admission a violation when usage is already above a limit in a
+// declared dimension of which the pod requests nothing (the admission does not push that dimension
+// any further)? Per kind of comparison:
+//
+//	own      yes. Clause 1 spells the dimension set out for the pod's own quota: "usage plus the pod's
+//	         request stays within the quota's current limit ... in every dimension the quota
+//	         declares"; with usage already above the limit it does not stay within it, whatever the
+//	         request (the unchanged code compares every dimension of used here).
+//	ancestor no, counted only: the statement says "within every ancestor's limit" without naming the
+//	         dimension set, and the ancestor walk masks to the names in the pod's request on purpose
+//	         (maintainer decision).
+//	np       no, counted only: "non-preemptible usage stays within min" does not name the dimension
+//	         set either.
+//
+// Counter for all of them: admitted_already_over_zero_request_<kind>.
+var c03LiteralUnrequestedDims = map[string]bool{"own": true, "ancestor": false, "np": false}
 
 type c03Fail struct {
 	kind   string // own | ancestor | np
@@ -1455,7 +1467,7 @@ func (w *c03World) attempt(p *c03Pod) {
 						k += "_default_quota"
 					}
 					c.Count("admitted_already_over_zero_request_"+k, 1)
-					if !c03LiteralUnrequestedDims {
+					if !c03LiteralUnrequestedDims[f.kind] {
 						continue
 					}
 					sig = "C03/admit/already-over-limit-in-unrequested-dimension/" + f.kind
